@@ -14,7 +14,7 @@ Max0(a, b) == IF a > b THEN a - b ELSE 0          \* a - b, floored at 0
 Vars(k) ==
   CASE k = "eth"  -> {"-"}
     [] k = "vlan" -> {"c0", "c1"}
-    [] k = "llc"  -> {"u", "i", "snap0", "snapx"}
+    [] k = "llc"  -> {"u", "i", "snap0", "snapx", "snapi"}
     [] k = "mpls" -> {"bos", "nobos", "mc"}
     [] k = "arp"  -> {"req", "rep", "rreq"}
     [] k = "ip4"  -> {"plain", "opts", "frag"}
@@ -24,7 +24,7 @@ Vars(k) ==
     [] k = "echo" -> {"req", "rep"}
     [] k = "igmp" -> {"query", "report1", "report2", "leave", "v3report"}
     [] k = "gre"  -> {"plain", "key", "seq", "keyseq", "csum", "route"}
-    [] k = "dhcp" -> {"bootp", "bare", "end", "disc", "offer"}
+    [] k = "dhcp" -> {"bootp", "bare", "end", "disc", "offer", "overload"}
     [] k = "dns"  -> {"empty", "q", "mdns", "resp", "multi"}
     [] k = "rip"  -> {"req", "resp"}
     [] k = "lldp" -> {"min", "full", "netport", "macport"}
@@ -124,7 +124,7 @@ Stacks == Comp(<<L("eth", "-")>>, 3)
 HLen(l) ==
   LET k == l.k  v == l.v IN
   CASE k = "eth" -> 14 [] k = "vlan" -> 4 [] k = "mpls" -> 4 [] k = "arp" -> 28
-    [] k = "llc" -> (CASE v = "u" -> 3 [] v = "i" -> 4 [] OTHER -> 8)
+    [] k = "llc" -> (CASE v = "u" -> 3 [] v = "i" -> 4 [] v = "snapi" -> 9 [] OTHER -> 8)
     [] k = "ip4" -> IF v = "opts" THEN 24 ELSE 20
     [] k = "ip6" -> (CASE v \in {"plain", "nonext"} -> 40 [] v = "hbhdst" -> 56
                        [] v = "dstx20" -> 200 [] v = "dstx180" -> 1480        \* chains of 20 / 180 /
@@ -138,7 +138,7 @@ HLen(l) ==
     [] k = "gre" -> (CASE v = "plain" -> 4 [] v = "keyseq" -> 12 [] v = "route" -> 20 [] OTHER -> 8)
     [] k = "vxlan" -> 8
     [] k = "dhcp" -> (CASE v = "bootp" -> 300 [] v = "bare" -> 240 [] v = "end" -> 241
-                        [] v = "disc" -> 265 [] v = "offer" -> 305)
+                        [] v = "disc" -> 265 [] v = "offer" -> 305 [] v = "overload" -> 247)
     [] k = "dns" -> (CASE v = "empty" -> 12 [] v \in {"q", "mdns"} -> 33 [] v = "resp" -> 49 [] v = "multi" -> 150)
     [] k = "rip" -> IF v = "req" THEN 24 ELSE 44
     [] k = "lldp" -> (CASE v = "min" -> 20 [] v = "full" -> 71 [] v = "netport" -> 23 [] v = "macport" -> 24)
